@@ -207,11 +207,11 @@ def scenario(ctx, rng, tmpdir):
     # describes exactly the second EFI entry, that is this finding; the remaining clauses are then checked against the
     # name order so that any OTHER defect still shows under its own signature.
     name_order = False
-    if variant != 'plain' and 'efi' in ents and 'mac' in ents and not share_boot and namesets[0] > namesets[1]:
+    if variant != 'plain' and 'efi' in ents and 'mac' in ents and names['efi'][0] > names['mac'][0]:
         lba2, cnt2 = struct.unpack_from('<LL', img, 446 + 16 + 8)
         if (lba2, cnt2) == (4 * ents['mac']['rba'], ents['mac']['cnt']) and ents['mac'] != ents['efi']:
             viol('C12.efi/partitions-follow-name-order', 'partition 2 describes the SECOND EFI section entry (%s sorts before %s): sections are '
-                 'handed to the hybrid structures in file-name order, not catalog order' % (namesets[1], namesets[0]))
+                 'handed to the hybrid structures in file-name order, not catalog order' % (names['mac'][0], names['efi'][0]))
             ents['efi'], ents['mac'] = ents['mac'], ents['efi']
             name_order = True
     cyl = s_geo * h_geo * 512
